@@ -5,6 +5,7 @@ from .. import roles as R
 META = {
     "technique": "sibling agreement of the two replay loops (arm tables) + polarity-normalised branch analysis + held-guard dataflow",
     "explanation": (
+        "R-C04.7: a single write applies the tombstone/value kind it journals (replay applies by the journaled kind). "
         "Decides: (1) the two replay loops (active journal in Database::recover, sealed journals in "
         "recover_sealed_memtables) agree: both dispatch the same record kinds to the same tree operations "
         "(Value->insert, Tombstone->remove, WeakTombstone->remove_weak, cleared_keyspaces->clear), key/value operands "
